@@ -524,6 +524,27 @@ impl Gen {
             "misuse" if self.rng.chance(1, 10) => {
                 let np: usize = self.cfg.players_per_peer.iter().sum();
                 let h = self.rng.below(np as u64 + 3) as usize;
+                // a legitimate manual disconnect of a remote player, then the same call again for that
+                // player and for every player behind the same address (all already disconnected:
+                // each must be refused and change nothing)
+                // (two-peer worlds only: with a third peer the gossiped cut-off is the recorded
+                // C10 finding, which is not this family's subject)
+                let two_peers = self.peers.iter().filter(|p| !p.is_spec).count() == 2;
+                if two_peers && self.rng.chance(1, 8) {
+                    let owners: Vec<Vec<usize>> = self.peers.iter().filter(|p| !p.is_spec && p.sid != sid).map(|p| p.handles.clone()).collect();
+                    if !owners.is_empty() {
+                        let group = self.rng.pick(&owners).clone();
+                        if !group.is_empty() {
+                            let first = *self.rng.pick(&group);
+                            self.emit(format!("disc {sid} {first}"));
+                            for g in group {
+                                if self.rng.chance(2, 3) {
+                                    self.emit(format!("disc {sid} {g}"));
+                                }
+                            }
+                        }
+                    }
+                }
                 let op = match self.rng.below(6) {
                     0 => format!("addin {sid} {h} 9"),
                     1 => format!("adv {sid}"),
